@@ -386,7 +386,7 @@ class ProgGen(object):
 
     def __init__(self, rng, max_stmts=25, max_depth=3, params=(), calls=(), self_cls=None, derived=(),
                  allow_delete=True, allow_mutation=True, enums=(), consts=(), var_prefix='', schema=None,
-                 ret_ty='any', rec_call=None, derived_attr=None):
+                 ret_ty='any', rec_call=None, derived_attr=None, create_in_loops=True, max_call_sites=99):
         self.rng = rng
         schema = schema or DEFAULT_SCHEMA
         self.classes = schema['classes']          # {class: [(attr, ty, referential)]}
@@ -396,6 +396,9 @@ class ProgGen(object):
         self.ret_ty = ret_ty                      # 'any' (top-level program), a type name, or None (no value)
         self.rec_call = rec_call                  # signature of a callable to call under `if (param.cnt > 0)`
         self.derived_attr = derived_attr          # name of the derived attribute whose body this is
+        self.create_in_loops = create_in_loops    # callables: no, so that the population grows linearly in the number of calls
+        self.call_sites = max_call_sites          # how many more call sites this body may get
+        self.foreach_depth = 0
         self.budget = max_stmts
         self.max_depth = max_depth
         self.params = list(params)            # [(name, ty)]
@@ -543,6 +546,9 @@ class ProgGen(object):
         return None
 
     def gen_call(self, c, depth=1, extra=()):
+        if self.call_sites <= 0:
+            return None
+        self.call_sites -= 1
         args = [[n, (['int', self.rng.choice([0, 0, 1, 1, 2])] if n == 'cnt' else self.gen_expr(t, min(depth, 1), extra))]
                 for n, t in c['params']]
         self.rng.shuffle(args)          # binding is by name: the order at the call site is free
@@ -735,7 +741,7 @@ class ProgGen(object):
         total = ['int', 0]
         for k, e in enumerate(ints[:8]):
             total = ['bin', '+', total, ['bin', '*', e, ['int', k + 1]]]
-        if self.allow_mutation and r.random() < 0.8:
+        if self.allow_mutation and r.random() < (0.8 if self.ret_ty == 'any' else 0.3):
             z = self.fresh('z')
             out.append(['create', z, 'A'])
             self.declare(z, V('inst', 'A', True))
@@ -946,9 +952,20 @@ class ProgGen(object):
             self.declare(name, V('inst', cls, ne=False))
         return [['select_rel', card, name, h, chain, wh]]
 
+    def may_create(self):
+        """population growth control: a create inside a for-each multiplies the population, so it must not be
+        repeated by an enclosing loop (and callables create outside loops only)"""
+        if not self.allow_mutation:
+            return False
+        if self.loop_depth == 0:
+            return True
+        if not self.create_in_loops:
+            return False
+        return self.foreach_depth == 0 or self.loop_depth == 1
+
     def st_create(self, depth):
         r = self.rng
-        if not self.allow_mutation:
+        if not self.may_create():
             return None
         cls = r.choice(self.cls_names)
         if r.random() < 0.1:
@@ -1076,6 +1093,8 @@ class ProgGen(object):
     def st_create_relate(self, depth):
         """fresh instances are surely unrelated"""
         r = self.rng
+        if not self.may_create():
+            return None
         kind = r.choice(['R1', 'R2', 'R3', 'R4'])
         out = []
         if kind in ('R1', 'R2'):
@@ -1318,6 +1337,7 @@ class ProgGen(object):
         if fresh:
             self.scopes[-1][lv] = V('inst', cls, ne=False, dead=sv.dead)
         modes = self.enter_loop(loopvar=lv, loopvar_cls=cls)
+        self.foreach_depth += 1
         v = self.lookup(lv)
         v.ne = True
         v.dead = sv.dead or modes.get(cls) == 'any'
@@ -1325,6 +1345,7 @@ class ProgGen(object):
         entry = self.snapshot()
         body = self.nested_block(depth)
         end = self.snapshot()
+        self.foreach_depth -= 1
         self.leave_loop()
         self.merge([entry, end])
         v = self.lookup(lv)
